@@ -250,7 +250,14 @@ def rule_md5_write_checked(ctx):
             ok_open = ok_open or _no_return_from(g, g.succ[b][1])
         elif cs in ("thefile == nullptr", "!thefile"):
             ok_open = ok_open or _no_return_from(g, g.succ[b][0])
-        if "fclose(thefile) != 0" in cs:
+        cs_all = [cs]
+        cnode = g.nodes.get(c)
+        if cnode is not None and cnode["k"] == "ref" and cnode.get("d") == "lv":     # a bool local that holds the result of the test
+            _rd = ReachingDefs(g, db)
+            ds = _rd.at(c, var_id(cnode))
+            if len(ds) == 1 and _rd.rhs_of(ds[0]) is not None:
+                cs_all.append(expr_str(g, _rd.rhs_of(ds[0])))
+        if any("fclose(thefile) != 0" in t for t in cs_all):
             ok_close = ok_close or _no_return_from(g, g.succ[b][0])
     r.check(ok_open, "backup_create_md5_file/open-failure-stops", db.loc(g, opens[0]), "when the md5 file cannot be created the function returns as if "
             "nothing had happened")
